@@ -123,6 +123,8 @@ def shape_of(tree):
         "functions": {q: {"locals": sorted(fn_locals(f)), "ifexp": sum(isinstance(n, ast.IfExp) for n in _walk_fn(f))}
                       for q, f in fns.items()},
         "names": sorted(module_names(tree)),
+        "attrs": sorted({n.attr for n in ast.walk(tree) if isinstance(n, ast.Attribute)} |
+                        {a.arg for n in ast.walk(tree) if isinstance(n, ast.Call) for a in n.keywords if a.arg}),
     }
 
 
@@ -199,6 +201,57 @@ def _roots_written(node):
     return out
 
 
+def _write_conflict(node, rhs, uses=()):
+    """does executing `node` possibly change the value of the (pure) expression `rhs`?  Field-sensitive for plain
+    `name.attr = ...` stores: they only touch readers of `name.attr` or of the bare object `name`."""
+    fields = set()
+    for n in ast.walk(node):
+        if isinstance(n, ast.Attribute) and isinstance(n.ctx, (ast.Store, ast.Del)) and isinstance(n.value, ast.Name):
+            fields.add((n.value.id, n.attr))
+    plain = {id(n) for n in ast.walk(node) if isinstance(n, ast.Attribute) and isinstance(n.ctx, (ast.Store, ast.Del))
+             and isinstance(n.value, ast.Name)}
+    other = set()
+    for n in ast.walk(node):
+        if isinstance(n, ast.Name) and isinstance(n.ctx, (ast.Store, ast.Del)):
+            other.add(n.id)
+        elif isinstance(n, (ast.Attribute, ast.Subscript)) and isinstance(n.ctx, (ast.Store, ast.Del)) and id(n) not in plain:
+            r = n
+            while isinstance(r, (ast.Attribute, ast.Subscript)):
+                r = r.value
+            if isinstance(r, ast.Name):
+                other.add(r.id)
+        elif isinstance(n, ast.Call) and isinstance(n.func, ast.Attribute) and n.func.attr in MUTATING:
+            r = n.func.value
+            while isinstance(r, (ast.Attribute, ast.Subscript)):
+                r = r.value
+            if isinstance(r, ast.Name):
+                other.add(r.id)
+        elif isinstance(n, ast.ExceptHandler) and n.name:
+            other.add(n.name)
+    free = {n.id for n in ast.walk(rhs) if isinstance(n, ast.Name) and isinstance(n.ctx, ast.Load)}
+    if other & free:
+        return True
+    attr_value_names = {id(n.value) for n in ast.walk(rhs) if isinstance(n, ast.Attribute) and isinstance(n.value, ast.Name)}
+    bare = {n.id for n in ast.walk(rhs) if isinstance(n, ast.Name) and isinstance(n.ctx, ast.Load) and id(n) not in attr_value_names}
+    read_fields = {(n.value.id, n.attr) for n in ast.walk(rhs) if isinstance(n, ast.Attribute) and isinstance(n.value, ast.Name)}
+    for r, a in fields:
+        if r in bare or (r, a) in read_fields:
+            return True
+    # a method call on an object whose fields `rhs` reads (or handing that object to a call) may change them
+    field_roots = {r for r, _ in read_fields}
+    for n in ast.walk(node):
+        if isinstance(n, ast.Call):
+            if any(_contains(a, u) for u in uses for a in list(n.args) + [k.value for k in n.keywords]):
+                continue  # the use is evaluated before this call runs
+            if isinstance(n.func, ast.Attribute) and isinstance(n.func.value, ast.Name) and n.func.value.id in field_roots \
+                    and n.func.attr not in PURE_METHODS:
+                return True
+            if any(isinstance(a, ast.Name) and a.id in field_roots for a in list(n.args) + [k.value for k in n.keywords]) and \
+                    not (isinstance(n.func, ast.Name) and (n.func.id in PURE_FUNCS or n.func.id.endswith(("Error", "Event")))):
+                return True   # (error / event objects are passive carriers: their constructors keep references, nothing else)
+    return False
+
+
 def _pos(n):
     return (getattr(n, "lineno", 0), getattr(n, "col_offset", 0))
 
@@ -267,6 +320,59 @@ def _contains(node, target):
     return any(n is target for n in ast.walk(node))
 
 
+def _evaluated_first(stmt, use, extra_pure=()):
+    """is the Name node `use` evaluated in `stmt` exactly once, unconditionally, and before anything with an effect?"""
+    if isinstance(stmt, (ast.Assign, ast.AnnAssign, ast.Return, ast.Expr)):
+        root = stmt.value
+    elif isinstance(stmt, ast.If):
+        root = stmt.test
+    elif isinstance(stmt, ast.For):
+        root = stmt.iter
+    elif isinstance(stmt, ast.Raise) and stmt.cause is None:
+        root = stmt.exc
+    elif isinstance(stmt, ast.Assert) and stmt.msg is None:
+        root = stmt.test
+    else:
+        return False
+    if root is None:
+        return False
+    node = root
+    while node is not use:
+        if isinstance(node, (ast.Call,)):
+            kids = [node.func] + list(node.args) + [k.value for k in node.keywords]
+        elif isinstance(node, ast.BinOp):
+            kids = [node.left, node.right]
+        elif isinstance(node, (ast.Yield, ast.YieldFrom, ast.Starred, ast.UnaryOp, ast.Attribute, ast.FormattedValue)):
+            kids = [node.value if not isinstance(node, ast.UnaryOp) else node.operand]
+        elif isinstance(node, ast.Subscript):
+            kids = [node.value, node.slice]
+        elif isinstance(node, ast.Compare):
+            kids = [node.left, node.comparators[0]]  # later comparators are conditional
+        elif isinstance(node, ast.BoolOp):
+            kids = [node.values[0]]
+        elif isinstance(node, ast.IfExp):
+            kids = [node.test]
+        elif isinstance(node, (ast.Tuple, ast.List, ast.Set)):
+            kids = list(node.elts)
+        elif isinstance(node, ast.JoinedStr):
+            kids = list(node.values)
+        else:
+            return False
+        nxt = None
+        for k in kids:
+            if k is None:
+                continue
+            if _contains(k, use):
+                nxt = k
+                break
+            if not is_pure(k, extra_pure):
+                return False
+        if nxt is None:
+            return False
+        node = nxt
+    return True
+
+
 def forward_substitute(fn, candidates, extra_pure=()):
     """replace single-definition effect-free locals named in `candidates` by their definition. Returns #substituted."""
     done = 0
@@ -295,6 +401,15 @@ def forward_substitute(fn, candidates, extra_pure=()):
                     continue
                 rhs = st.value
                 if not is_pure(rhs, extra_pure):
+                    # an effectful definition may still move if its only use is the first thing the next statement evaluates
+                    uses = [n for n in _walk_fn(fn) if isinstance(n, ast.Name) and n.id == var and isinstance(n.ctx, ast.Load)]
+                    if len(uses) == 1 and i + 1 < len(lst) and _evaluated_first(lst[i + 1], uses[0], extra_pure) and \
+                            not any(isinstance(x, (ast.Yield, ast.YieldFrom, ast.Await, ast.NamedExpr)) for x in ast.walk(rhs)):
+                        substitute(lst[i + 1], {var: rhs})
+                        del lst[i]
+                        done += 1
+                        progress = True
+                        break
                     continue
                 if _mutable_value(rhs) and any(var in _roots_written(s_) for s_ in lst[i + 1:]):
                     continue  # a container that is filled in later is an object, not a value
@@ -317,7 +432,7 @@ def forward_substitute(fn, candidates, extra_pure=()):
                     last = max(range(len(later)), key=lambda k: (any(_contains(later[k], u) for u in uses), k))
                     last = max(k for k in range(len(later)) if any(_contains(later[k], u) for u in uses))
                     for s in later[:last + 1]:
-                        if _roots_written(s) & free:
+                        if _write_conflict(s, rhs, uses):
                             # writes inside the same statement as a use: order unknown -> refuse, except the trivial
                             # case where the write is the statement's own assignment target after evaluating the use
                             if isinstance(s, (ast.Assign, ast.AugAssign, ast.AnnAssign)) and not (
@@ -331,7 +446,7 @@ def forward_substitute(fn, candidates, extra_pure=()):
                     if ok:
                         for s in later[:last + 1]:
                             for loop in [x for x in ast.walk(s) if isinstance(x, (ast.For, ast.AsyncFor, ast.While))]:
-                                if any(_contains(loop, u) for u in uses) and (_roots_written(loop) & free):
+                                if any(_contains(loop, u) for u in uses) and _write_conflict(loop, rhs, uses):
                                     ok = False
                 if not ok:
                     continue
@@ -619,6 +734,120 @@ class Helper:
         return prologue, wrapper.body
 
 
+class AnyReceiver(dict):
+    """method helpers that may be called on any simple receiver expression (N9: the member name is unique in the project)"""
+
+
+def _simple_receiver(e):
+    while isinstance(e, ast.Attribute):
+        e = e.value
+    return isinstance(e, ast.Name)
+
+
+def inline_new_members(trees, shape_all):
+    """N9. `trees`: {module name: tree}.  A method or property that is new relative to the pinned shape, defined on a pinned
+    class, whose name is used for nothing else in the project (no other definition, no attribute of that name in the pinned
+    tree, never assigned), is expanded at its uses in every module: `X.prop` -> the property's expression, `X.m(a)` -> the body.
+    Returns {module name: [member names expanded there]}."""
+    if not shape_all:
+        return {}
+    pinned_attrs = set()
+    for sh in shape_all.values():
+        pinned_attrs |= set(sh.get("attrs", ()))
+        pinned_attrs |= {q.split(".")[-1] for q in sh["functions"]}
+    defs = {}
+    for mname, tree in trees.items():
+        sh = shape_all.get(mname)
+        for n in ast.walk(tree):
+            if isinstance(n, (ast.FunctionDef, ast.AsyncFunctionDef, ast.ClassDef)):
+                defs.setdefault(n.name, []).append(n)
+    stored = set()
+    for tree in trees.values():
+        for n in ast.walk(tree):
+            if isinstance(n, ast.Attribute) and isinstance(n.ctx, (ast.Store, ast.Del)):
+                stored.add(n.attr)
+            elif isinstance(n, ast.Call) and _callee(n) in ("setattr", "delattr") and len(n.args) >= 2:
+                stored.add(n.args[1].value if isinstance(n.args[1], ast.Constant) else "*")
+            elif isinstance(n, ast.ClassDef):
+                for st in n.body:
+                    for t in (st.targets if isinstance(st, ast.Assign) else [st.target] if isinstance(st, ast.AnnAssign) else []):
+                        if isinstance(t, ast.Name):
+                            stored.add(t.id)
+    # (setattr with a computed name sets table-driven data fields; it cannot define the new member of a pinned class)
+    props, methods = {}, AnyReceiver()
+    for mname, tree in trees.items():
+        sh = shape_all.get(mname)
+        if sh is None:
+            continue
+        pinned_fns = set(sh["functions"])
+        pinned_classes = {q.split(".")[0] for q in pinned_fns if "." in q}
+        for c in tree.body:
+            if not (isinstance(c, ast.ClassDef) and c.name in pinned_classes):
+                continue
+            for m in c.body:
+                if not isinstance(m, ast.FunctionDef) or f"{c.name}.{m.name}" in pinned_fns:
+                    continue
+                if m.name in pinned_attrs or m.name in stored or len(defs.get(m.name, ())) != 1 or m.name.startswith("__"):
+                    continue
+                decs = [norm_dec(d) for d in m.decorator_list]
+                if decs == ["property"]:
+                    clone = copy.deepcopy(m)
+                    clone.decorator_list = []
+                    h = Helper(clone, c.name)
+                    if h.usable() and len(h.params) == 1 and not h.is_gen:
+                        forward_substitute(clone, fn_locals(clone) - set(h.params))
+                        try:
+                            expr = as_expression(_strip_doc(clone.body))
+                        except NotInlineable:
+                            continue
+                        if expr is not None and is_pure(expr):
+                            props[m.name] = (h.params[0], expr)
+                elif not decs:
+                    h = Helper(m, c.name)
+                    if h.usable() and h.params and h.params[0] == "self":
+                        forward_substitute(m, fn_locals(m) - set(h.params))
+                        h.body = _strip_doc(m.body)
+                        methods[m.name] = h
+    log = {}
+    if not props and not methods:
+        return log
+    for mname, tree in trees.items():
+        done = []
+        if props:
+            class P(ast.NodeTransformer):
+                def visit_Attribute(self, node):
+                    self.generic_visit(node)
+                    if isinstance(node.ctx, ast.Load) and node.attr in props and _simple_receiver(node.value):
+                        selfname, expr = props[node.attr]
+                        new = copy.deepcopy(expr)
+                        new = _Subst({selfname: node.value}).visit(new)
+                        done.append(node.attr)
+                        return ast.copy_location(new, node)
+                    return node
+            for q, fn in functions_of(tree).items():
+                if fn.name in props:
+                    continue
+                P().visit(fn)
+        if methods:
+            for q, fn in functions_of(tree).items():
+                if fn.name in methods:
+                    continue
+                for _round in range(3):
+                    if not _inline_in_function(fn, {}, methods, done):
+                        break
+        if done:
+            ast.fix_missing_locations(tree)
+            log[mname] = sorted(set(done))
+    return log
+
+
+def norm_dec(d):
+    try:
+        return ast.unparse(d)
+    except Exception:  # pragma: no cover
+        return "?"
+
+
 def _call_of(node, helpers, cls_helpers):
     """(helper, is_method, via_yield_from, call) if node is a direct call of a helper (possibly under `yield from`)"""
     via = False
@@ -629,7 +858,12 @@ def _call_of(node, helpers, cls_helpers):
     f = node.func
     if isinstance(f, ast.Name) and f.id in helpers:
         return helpers[f.id], False, via, node
-    if isinstance(f, ast.Attribute) and isinstance(f.value, ast.Name) and f.value.id in ("self", "cls") and f.attr in cls_helpers:
+    if isinstance(f, ast.Attribute) and isinstance(f.value, ast.Name) and f.attr in cls_helpers and \
+            (f.value.id in ("self", "cls") or f.value.id == cls_helpers[f.attr].owner):
+        h = cls_helpers[f.attr]
+        if f.value.id in ("self", "cls") or getattr(h, "static", False):
+            return h, not getattr(h, "static", False), via, node
+    if isinstance(cls_helpers, AnyReceiver) and isinstance(f, ast.Attribute) and f.attr in cls_helpers and _simple_receiver(f.value):
         return cls_helpers[f.attr], True, via, node
     return None
 
@@ -648,6 +882,14 @@ def inline_helpers(tree, shape, keep=frozenset()):
         elif isinstance(st, ast.ClassDef):
             for m in st.body:
                 if isinstance(m, ast.FunctionDef) and f"{st.name}.{m.name}" not in pinned_fns and st.name in {q.split(".")[0] for q in pinned_fns}:
+                    if [norm_dec(d) for d in m.decorator_list] == ["staticmethod"]:
+                        bare = copy.deepcopy(m)
+                        bare.decorator_list = []
+                        h = Helper(bare, st.name)
+                        h.static, h.orig = True, m
+                        if h.usable():
+                            cls_helpers_by_class.setdefault(st.name, {})[m.name] = h
+                        continue
                     h = Helper(m, st.name)
                     if h.usable() and h.params and h.params[0] in ("self", "cls"):
                         cls_helpers_by_class.setdefault(st.name, {})[m.name] = h
@@ -687,7 +929,7 @@ def inline_helpers(tree, shape, keep=frozenset()):
         cdef = next(c for c in tree.body if isinstance(c, ast.ClassDef) and c.name == cname)
         for name, h in d.items():
             if name in inlined and not referenced(name, True) and name not in keep:
-                cdef.body.remove(h.fn)
+                cdef.body.remove(getattr(h, "orig", h.fn))
     return inlined
 
 
@@ -1024,6 +1266,425 @@ def split_conditionals(fn):
     return n
 
 
+# ------------------------------------------------------------------- N10 conditional values under known facts
+def _is_none(e):
+    return isinstance(e, ast.Constant) and e.value is None
+
+
+def _never_none(e):
+    if isinstance(e, ast.Constant):
+        return e.value is not None
+    if isinstance(e, (ast.BinOp, ast.Compare, ast.JoinedStr, ast.List, ast.Tuple, ast.Dict, ast.Set)):
+        return True
+    if isinstance(e, ast.Call) and _callee(e) in ("int", "len", "str", "bytes", "list", "dict", "tuple", "bool", "sum", "abs"):
+        return True
+    return False
+
+
+def _negate(e):
+    if isinstance(e, ast.Compare) and len(e.ops) == 1 and type(e.ops[0]) in (ast.Is, ast.IsNot, ast.Eq, ast.NotEq, ast.In, ast.NotIn):
+        flip = {ast.Is: ast.IsNot, ast.IsNot: ast.Is, ast.Eq: ast.NotEq, ast.NotEq: ast.Eq, ast.In: ast.NotIn, ast.NotIn: ast.In}
+        return ast.copy_location(ast.Compare(left=e.left, ops=[flip[type(e.ops[0])]()], comparators=e.comparators), e)
+    if isinstance(e, ast.UnaryOp) and isinstance(e.op, ast.Not):
+        return e.operand
+    return ast.copy_location(ast.UnaryOp(op=ast.Not(), operand=e), e)
+
+
+def _facts_of(test, truth):
+    """atomic facts [(text, truth, expr)] that follow from `test` having the value `truth`"""
+    if isinstance(test, ast.UnaryOp) and isinstance(test.op, ast.Not):
+        return _facts_of(test.operand, not truth)
+    if isinstance(test, ast.BoolOp):
+        if isinstance(test.op, ast.And) == truth:
+            out = []
+            for v in test.values:
+                out += _facts_of(v, truth)
+            return out
+        return []
+    if isinstance(test, ast.Compare) and len(test.ops) == 1 and isinstance(test.ops[0], (ast.IsNot, ast.NotEq, ast.NotIn)):
+        return _facts_of(_negate(test), not truth)
+    if isinstance(test, ast.IfExp) and truth:
+        # a conditional value with one constant falsy arm is truthy only through the other arm
+        falsy = lambda x: isinstance(x, ast.Constant) and not x.value
+        if falsy(test.body) and not falsy(test.orelse):
+            return _facts_of(test.test, False) + _facts_of(test.orelse, True)
+        if falsy(test.orelse) and not falsy(test.body):
+            return _facts_of(test.test, True) + _facts_of(test.body, True)
+    if not is_pure(test):
+        return []
+    return [(ast.unparse(test), truth, test)]
+
+
+def _known(test, facts):
+    fs = _facts_of(test, True)
+    if len(fs) != 1:
+        return None
+    text, pol, _ = fs[0]
+    for t, v, _e in facts:
+        if t == text:
+            return v == pol
+    return None
+
+
+def _strict_in(e, x_text):
+    """does evaluating the arithmetic expression `e` raise TypeError when the operand spelled `x_text` is None?"""
+    if isinstance(e, ast.BinOp) and isinstance(e.op, (ast.Add, ast.Sub, ast.Mult, ast.FloorDiv, ast.Mod, ast.LShift, ast.RShift)):
+        return any(ast.unparse(o) == x_text or _strict_in(o, x_text) for o in (e.left, e.right))
+    return False
+
+
+def simplify_conditional_values(fn):
+    """N10.  Conditional expressions whose test is decided by a dominating assert / if / and-operand are replaced by the
+    live arm; `(None if C else E) is None` becomes `C`; `(None if X is None else E)` as operand of an ordering comparison
+    or of arithmetic, with E arithmetic in X, becomes `E` (both raise TypeError when X is None).  Returns #rewrites."""
+    count = [0]
+
+    def strip_none_guard(e):
+        # (None if X is None else E) / (E if X is not None else None), E strict in X -> E
+        if isinstance(e, ast.IfExp):
+            t, a, b = e.test, e.body, e.orelse
+            if isinstance(t, ast.Compare) and len(t.ops) == 1 and _is_none(t.comparators[0]):
+                if isinstance(t.ops[0], ast.Is) and _is_none(a) and _strict_in(b, ast.unparse(t.left)):
+                    count[0] += 1
+                    return b
+                if isinstance(t.ops[0], ast.IsNot) and _is_none(b) and _strict_in(a, ast.unparse(t.left)):
+                    count[0] += 1
+                    return a
+        return e
+
+    def rw(e, facts):
+        if e is None or isinstance(e, (ast.Lambda, ast.GeneratorExp, ast.ListComp, ast.SetComp, ast.DictComp)):
+            return e
+        if isinstance(e, ast.BoolOp):
+            acc = list(facts)
+            vals = []
+            for v in e.values:
+                nv = rw(v, acc)
+                vals.append(nv)
+                acc = acc + _facts_of(nv, isinstance(e.op, ast.And))
+            e.values = vals
+            return e
+        if isinstance(e, ast.IfExp):
+            e.test = rw(e.test, facts)
+            k = _known(e.test, facts)
+            if k is True:
+                count[0] += 1
+                return rw(e.body, facts + _facts_of(e.test, True))
+            if k is False:
+                count[0] += 1
+                return rw(e.orelse, facts + _facts_of(e.test, False))
+            e.body = rw(e.body, facts + _facts_of(e.test, True))
+            e.orelse = rw(e.orelse, facts + _facts_of(e.test, False))
+            return e
+        for f_, v in list(ast.iter_fields(e)):
+            if isinstance(v, ast.expr):
+                setattr(e, f_, rw(v, facts))
+            elif isinstance(v, list):
+                for x in v:
+                    if isinstance(x, ast.keyword):
+                        x.value = rw(x.value, facts)
+                setattr(e, f_, [rw(x, facts) if isinstance(x, ast.expr) else x for x in v])
+        if isinstance(e, ast.Compare) and len(e.ops) == 1:
+            l, r, op = e.left, e.comparators[0], e.ops[0]
+            if isinstance(op, (ast.Is, ast.IsNot)) and _is_none(r) and isinstance(l, ast.IfExp):
+                if _is_none(l.body) and _never_none(l.orelse):
+                    count[0] += 1
+                    return l.test if isinstance(op, ast.Is) else _negate(l.test)
+                if _is_none(l.orelse) and _never_none(l.body):
+                    count[0] += 1
+                    return _negate(l.test) if isinstance(op, ast.Is) else l.test
+            if isinstance(op, (ast.Lt, ast.LtE, ast.Gt, ast.GtE)):
+                e.left, e.comparators = strip_none_guard(l), [strip_none_guard(r)]
+        if isinstance(e, ast.BinOp) and isinstance(e.op, (ast.Add, ast.Sub, ast.Mult)):
+            e.left, e.right = strip_none_guard(e.left), strip_none_guard(e.right)
+        return e
+
+    def kill(facts, st):
+        return [f for f in facts if not _write_conflict(st, f[2])]
+
+    def block(stmts, facts):
+        facts = list(facts)
+        for st in stmts:
+            if isinstance(st, (ast.FunctionDef, ast.AsyncFunctionDef, ast.ClassDef)):
+                continue
+            if isinstance(st, ast.If):
+                st.test = rw(st.test, facts)
+                fa = block(st.body, facts + _facts_of(st.test, True))
+                fb = block(st.orelse, facts + _facts_of(st.test, False))
+                ta, tb = _terminates(st.body), bool(st.orelse) and _terminates(st.orelse)
+                base = kill(facts, ast.Expr(value=st.test))
+                for arm, dead in ((st.body, ta), (st.orelse, tb)):
+                    if not dead:
+                        for x in arm:
+                            base = kill(base, x)
+                if ta and not tb:
+                    extra = _facts_of(st.test, False)
+                    for x in st.orelse:
+                        extra = kill(extra, x)
+                    facts = base + extra
+                elif tb and not ta:
+                    extra = _facts_of(st.test, True)
+                    for x in st.body:
+                        extra = kill(extra, x)
+                    facts = base + extra
+                else:
+                    facts = base
+                continue
+            if isinstance(st, (ast.While, ast.For, ast.AsyncFor)):
+                inner = kill(facts, st)
+                if isinstance(st, ast.While):
+                    st.test = rw(st.test, inner)
+                    block(st.body, inner + _facts_of(st.test, True))
+                else:
+                    st.iter = rw(st.iter, facts)
+                    block(st.body, inner)
+                block(st.orelse, inner)
+                facts = inner
+                continue
+            if isinstance(st, ast.Try):
+                inner = kill(facts, st)
+                block(st.body, facts)
+                for h in st.handlers:
+                    block(h.body, inner)
+                block(st.orelse, inner)
+                block(st.finalbody, inner)
+                facts = inner
+                continue
+            if isinstance(st, (ast.With, ast.AsyncWith)):
+                block(st.body, kill(facts, st))
+                facts = kill(facts, st)
+                continue
+            for f_, v in list(ast.iter_fields(st)):
+                if isinstance(v, ast.expr):
+                    setattr(st, f_, rw(v, facts))
+                elif isinstance(v, list) and v and all(isinstance(x, ast.expr) for x in v):
+                    setattr(st, f_, [rw(x, facts) for x in v])
+            facts = kill(facts, st)
+            if isinstance(st, ast.Assert):
+                facts = facts + _facts_of(st.test, True)
+        return facts
+
+    block(fn.body, [])
+    return count[0]
+
+
+# ------------------------------------------------------------------- N11 linear arithmetic
+def _lin_terms(e, sign, out):
+    if isinstance(e, ast.BinOp) and isinstance(e.op, ast.Add):
+        _lin_terms(e.left, sign, out)
+        _lin_terms(e.right, sign, out)
+    elif isinstance(e, ast.BinOp) and isinstance(e.op, ast.Sub):
+        _lin_terms(e.left, sign, out)
+        _lin_terms(e.right, -sign, out)
+    elif isinstance(e, ast.UnaryOp) and isinstance(e.op, ast.USub) and not isinstance(e.operand, ast.Constant):
+        _lin_terms(e.operand, -sign, out)
+    else:
+        out.append((sign, e))
+
+
+def _has_linear_sub(e):
+    if isinstance(e, ast.BinOp) and isinstance(e.op, ast.Sub):
+        return True
+    if isinstance(e, ast.BinOp) and isinstance(e.op, ast.Add):
+        return _has_linear_sub(e.left) or _has_linear_sub(e.right)
+    return False
+
+
+def _lin_build(pos, neg, const):
+    """pos/neg: expression lists; const: int"""
+    pos = sorted(pos, key=ast.unparse)
+    neg = sorted(neg, key=ast.unparse)
+    if const > 0:
+        pos = pos + [ast.Constant(value=const)]
+    elif const < 0:
+        neg = neg + [ast.Constant(value=-const)]
+    if not pos:
+        if not neg:
+            return ast.Constant(value=0)
+        return None
+    out = pos[0]
+    for t in pos[1:]:
+        out = ast.BinOp(left=out, op=ast.Add(), right=t)
+    for t in neg:
+        out = ast.BinOp(left=out, op=ast.Sub(), right=t)
+    return out
+
+
+def _split_const(terms):
+    const, pos, neg = 0, [], []
+    for sg, t in terms:
+        if isinstance(t, ast.Constant) and isinstance(t.value, int) and not isinstance(t.value, bool):
+            const += sg * t.value
+        elif sg > 0:
+            pos.append(t)
+        else:
+            neg.append(t)
+    # x - x cancels
+    for t in list(pos):
+        tx = ast.unparse(t)
+        m = next((n for n in neg if ast.unparse(n) == tx), None)
+        if m is not None and is_pure(t):
+            pos.remove(t)
+            neg.remove(m)
+    return pos, neg, const
+
+
+class _Linear(ast.NodeTransformer):
+    """sums and differences that contain a subtraction (hence numbers) get one spelling: positive terms in text order, then
+    the negative ones; in a comparison every term moves to the side where it is positive and the textually smaller side
+    stands on the left.  `size > max - already` and `already + size > max` are the same statement."""
+    FLIP = {ast.Lt: ast.Gt, ast.Gt: ast.Lt, ast.LtE: ast.GtE, ast.GtE: ast.LtE, ast.Eq: ast.Eq, ast.NotEq: ast.NotEq}
+
+    def __init__(self):
+        self.count = 0
+
+    def visit_Compare(self, node):
+        self.generic_visit(node)
+        if len(node.ops) != 1 or type(node.ops[0]) not in self.FLIP:
+            return node
+        l, r = node.left, node.comparators[0]
+        if not (_has_linear_sub(l) or _has_linear_sub(r)):
+            return node
+        terms = []
+        _lin_terms(l, 1, terms)
+        _lin_terms(r, -1, terms)
+        if not all(is_pure(t) for _, t in terms):
+            return node
+        pos, neg, const = _split_const(terms)
+        left = _lin_build(pos, [], const if const > 0 else 0)
+        right = _lin_build(neg, [], -const if const < 0 else 0)
+        if left is None or right is None:
+            return node
+        op = node.ops[0]
+        if ast.unparse(left) > ast.unparse(right) and not (isinstance(right, ast.Constant) and not isinstance(left, ast.Constant)):
+            left, right, op = right, left, self.FLIP[type(op)]()
+        elif isinstance(left, ast.Constant) and not isinstance(right, ast.Constant):
+            left, right, op = right, left, self.FLIP[type(op)]()
+        new = ast.copy_location(ast.Compare(left=left, ops=[op], comparators=[right]), node)
+        if ast.unparse(new) != ast.unparse(node):
+            self.count += 1
+        return ast.fix_missing_locations(new)
+
+    def visit_BinOp(self, node):
+        if isinstance(node.op, (ast.Add, ast.Sub)) and _has_linear_sub(node):
+            terms = []
+            _lin_terms(node, 1, terms)
+            terms = [(sg, self.visit(t)) for sg, t in terms]
+            if all(is_pure(t) for _, t in terms):
+                pos, neg, const = _split_const(terms)
+                new = _lin_build(pos, neg, const)
+                if new is not None:
+                    new = ast.fix_missing_locations(ast.copy_location(new, node))
+                    if ast.unparse(new) != ast.unparse(node):
+                        self.count += 1
+                    return new
+            return node
+        self.generic_visit(node)
+        return node
+
+
+def name_reraises(tree):
+    """N12. a bare `raise` directly inside `except E as name:` re-raises the object `name` is bound to (unless rebound)"""
+    n = 0
+    for h in ast.walk(tree):
+        if not (isinstance(h, ast.ExceptHandler) and h.name):
+            continue
+        rebound = any(isinstance(x, ast.Name) and x.id == h.name and isinstance(x.ctx, (ast.Store, ast.Del))
+                      for st in h.body for x in ast.walk(st))
+        if rebound:
+            continue
+        stack = list(h.body)
+        while stack:
+            st = stack.pop()
+            if isinstance(st, ast.Raise) and st.exc is None:
+                st.exc = ast.copy_location(ast.Name(id=h.name, ctx=ast.Load()), st)
+                n += 1
+            for f_, v in ast.iter_fields(st):
+                if isinstance(v, list):
+                    for x in v:
+                        if isinstance(x, ast.stmt) and not isinstance(x, (ast.FunctionDef, ast.AsyncFunctionDef, ast.ClassDef, ast.Try)):
+                            stack.append(x)
+                        elif isinstance(x, ast.Try):
+                            stack.extend(x.body + x.orelse + x.finalbody)  # not its handlers: there a bare raise means another error
+    return n
+
+
+class _FormatCalls(ast.NodeTransformer):
+    """N13. `"...{a}...{b:spec}".format(a=X, b=Y)` with a constant template and plain field names is the f-string
+    `f"...{X}...{Y:spec}"` (arguments must be effect-free: an f-string evaluates them where they are used)"""
+
+    def __init__(self):
+        self.count = 0
+
+    def visit_Call(self, node):
+        self.generic_visit(node)
+        f = node.func
+        if not (isinstance(f, ast.Attribute) and f.attr == "format" and isinstance(f.value, ast.Constant) and isinstance(f.value.value, str)):
+            return node
+        if any(isinstance(a, ast.Starred) for a in node.args) or any(k.arg is None for k in node.keywords):
+            return node
+        if not all(is_pure(a) for a in list(node.args) + [k.value for k in node.keywords]):
+            return node
+        kw = {k.arg: k.value for k in node.keywords}
+        auto = [0]
+        used = set()
+
+        def build(template, depth=0):
+            import string
+            parts = []
+            for lit, field, spec, conv in string.Formatter().parse(template):
+                if lit:
+                    parts.append(ast.Constant(value=lit))
+                if field is None:
+                    continue
+                if field == "":
+                    key = auto[0]
+                    auto[0] += 1
+                elif field.isdigit():
+                    key = int(field)
+                elif field.isidentifier():
+                    key = field
+                else:
+                    raise ValueError(field)
+                if isinstance(key, int):
+                    if key >= len(node.args):
+                        raise ValueError(field)
+                    val = node.args[key]
+                else:
+                    if key not in kw:
+                        raise ValueError(field)
+                    val = kw[key]
+                used.add(key)
+                fs = None
+                if spec:
+                    if depth > 0:
+                        raise ValueError("nesting")
+                    fs = ast.JoinedStr(values=build(spec, depth + 1))
+                parts.append(ast.FormattedValue(value=copy.deepcopy(val), conversion=ord(conv) if conv else -1, format_spec=fs))
+            return parts
+        try:
+            parts = build(f.value.value)
+        except ValueError:
+            return node
+        if len(used) != len(node.args) + len(kw):
+            return node  # unused arguments would no longer be evaluated
+        # merge adjacent literals
+        merged = []
+        for x in parts:
+            if merged and isinstance(x, ast.Constant) and isinstance(merged[-1], ast.Constant):
+                merged[-1] = ast.Constant(value=merged[-1].value + x.value)
+            else:
+                merged.append(x)
+        self.count += 1
+        return ast.fix_missing_locations(ast.copy_location(ast.JoinedStr(values=merged), node))
+
+
+def linear_canon(tree):
+    v = _Linear()
+    v.visit(tree)
+    return v.count
+
+
 # ------------------------------------------------------------------------- N8 keyword dicts
 def expand_keyword_dicts(fn, candidates):
     """`kw = {"a": x, "b": y}` ... `f(**kw)`: a new local bound once to a dict display with constant string keys, never
@@ -1160,6 +1821,10 @@ def normalise(tree, modname, shape_all=None, keep=frozenset()):
         if k:
             log["counted_loops"][q] = k
             forward_substitute(fn, fn_locals(fn) - set(pinned["locals"]))
+        if pinned.get("ifexp", 0) == 0 and any(isinstance(n, ast.IfExp) for n in _walk_fn(fn)):
+            if simplify_conditional_values(fn):
+                log.setdefault("simplified", {})[q] = True
+                forward_substitute(fn, fn_locals(fn) - set(pinned["locals"]))
         if pinned.get("ifexp", 0) == 0:
             k = total = split_conditionals(fn)
             while k:
@@ -1167,4 +1832,15 @@ def normalise(tree, modname, shape_all=None, keep=frozenset()):
                 total += k
             if total:
                 log["conditionals"][q] = total
+    k = name_reraises(tree)
+    if k:
+        log["reraises"] = k
+    fc = _FormatCalls()
+    fc.visit(tree)
+    if fc.count:
+        log["format_calls"] = fc.count
+    k = linear_canon(tree)
+    if k:
+        log["linear"] = k
+        ast.fix_missing_locations(tree)
     return log
